@@ -351,3 +351,33 @@ Proof.
   split; [|vm_compute; repeat split; reflexivity].
   exact (runs_reach wit_ops init [] reach_init wit_wf).
 Qed.
+
+(** * The record is cleared as a whole: no address or v2 hash without an index *)
+Definition rec_whole (s : state) : Prop := a_idx s = None -> a_addr s = None /\ a_hash s = None.
+
+Lemma rec_whole_batch s C rs bs s' : reach s C -> rec_whole s -> wf_batch C rs bs -> batch s rs bs = Ok s' ->
+  rec_whole s'.
+Proof.
+  intros R W F H. destruct rs as [|r rs'] eqn:Ers; [destruct bs as [|b bs'] eqn:Ebs|].
+  - cbn in H. injection H as <-. exact W.
+  - assert (@nil rblock <> [] \/ b :: bs' <> []) as Hne by (right; discriminate).
+    destruct (batch_ann s C [] (b :: bs') s' R F H Hne) as [s2 [E1 [E2 [E3 [A1 [A2 A3]]]]]].
+    destruct (settings_update_closed s2 [] (b :: bs')) as [Q1 [Q2 Q3]]. cbn zeta in *.
+    unfold rec_whole in *. rewrite A1, A2, A3, Q1, Q2, Q3, E1, E2, E3. cbn [existsb].
+    destruct (batch_v2 (b :: bs')) as [[[i2 h2] [|]]|]; destruct (batch_v1 (b :: bs')) as [[i1 a1]|]; try discriminate; auto.
+  - assert (r :: rs' <> [] \/ bs <> []) as Hne by (left; discriminate).
+    destruct (batch_ann s C (r :: rs') bs s' R F H Hne) as [s2 [E1 [E2 [E3 [A1 [A2 A3]]]]]].
+    destruct (settings_update_closed s2 (r :: rs') bs) as [Q1 [Q2 Q3]]. cbn zeta in *.
+    unfold rec_whole in *. rewrite A1, A2, A3, Q1, Q2, Q3.
+    destruct (existsb (fun r0 => opt_idx_is (a_idx s2) (rb_idx r0)) (r :: rs'));
+      destruct (batch_v2 bs) as [[[i2 h2] [|]]|]; destruct (batch_v1 bs) as [[i1 a1]|];
+      rewrite ?E1, ?E2, ?E3; try discriminate; auto.
+Qed.
+
+Theorem reach_rec_whole s C : reach s C -> rec_whole s.
+Proof.
+  induction 1 as [|s C rs bs s' R IH F H|s C R IH].
+  - intros _. split; reflexivity.
+  - exact (rec_whole_batch s C rs bs s' R IH F H).
+  - intros _. split; reflexivity.
+Qed.
